@@ -182,7 +182,7 @@ impl Cc14Mon {
                 let real = &mut self.real;
                 let got = api("ControlChange14BitMessageScanner::feed", || real.feed(&m));
                 let Some(got) = got else {
-                    rep.violation(
+                    crate::viol!(rep, 
                         "C08:panic:feed",
                         format!("feed({}) panicked", ev.render()),
                         history_json("cc14", None, path, json!(format!("{:?}", exp)), json!("panic")),
@@ -200,7 +200,7 @@ impl Cc14Mon {
                         (Some(_), None) => "missing-report",
                         _ => "wrong-report",
                     };
-                    rep.violation(
+                    crate::viol!(rep, 
                         format!("C08:{}", class),
                         format!("feed({}) returned {:?}, justified by the history: {:?}", ev.render(), gotp, exp),
                         history_json("cc14", None, path, json!(format!("{:?}", exp)), json!(format!("{:?}", gotp))),
@@ -208,7 +208,7 @@ impl Cc14Mon {
                 }
                 if let (Some(g), Some(c)) = (&gotp, ev.channel()) {
                     if g.ch != c {
-                        rep.violation(
+                        crate::viol!(rep, 
                             "C15:cc14:report-on-wrong-channel",
                             format!("feed({}) reported {:?}", ev.render(), g),
                             history_json("cc14", None, path, json!(c), json!(g.ch)),
@@ -220,7 +220,7 @@ impl Cc14Mon {
                 if !contributing {
                     rep.count("cc14_noncontributing_feeds", 1);
                     if gotp.is_some() || self.real != before {
-                        rep.violation(
+                        crate::viol!(rep, 
                             "C16:cc14:not-transparent",
                             format!(
                                 "non-contributing message {} returned {:?}; state changed: {}",
@@ -247,7 +247,7 @@ impl Cc14Mon {
                 rep.count("cc14_resets", 1);
                 let fresh = api("ControlChange14BitMessageScanner::new", ControlChange14BitMessageScanner::new);
                 if r.is_none() || fresh != Some(self.real) {
-                    rep.violation(
+                    crate::viol!(rep, 
                         "C17:cc14:reset-not-equal-new",
                         "after reset() the scanner does not compare equal to a new one".to_string(),
                         history_json("cc14", None, path, json!("== new()"), json!(format!("{:?}", self.real))),
@@ -358,7 +358,7 @@ impl PnMon {
                 let real = &mut self.real;
                 let got = api("ParameterNumberMessageScanner::feed", || real.feed(&m));
                 let Some(got) = got else {
-                    rep.violation(
+                    crate::viol!(rep, 
                         "C11:panic:feed",
                         format!("feed({}) panicked", ev.render()),
                         history_json("pn", None, path, json!(format!("{:?}", exp)), json!("panic")),
@@ -399,7 +399,7 @@ impl PnMon {
                         }
                         _ => unreachable!(),
                     };
-                    rep.violation(
+                    crate::viol!(rep, 
                         format!("C11:{}", class),
                         format!("feed({}) returned {:?}, justified by the history: {:?}", ev.render(), gotp, exp),
                         history_json("pn", None, path, json!(format!("{:?}", exp)), json!(format!("{:?}", gotp))),
@@ -407,7 +407,7 @@ impl PnMon {
                 }
                 if let (Some(g), Some(c)) = (&gotp, ev.channel()) {
                     if g.ch != c {
-                        rep.violation(
+                        crate::viol!(rep, 
                             "C15:pn:report-on-wrong-channel",
                             format!("feed({}) reported {:?}", ev.render(), g),
                             history_json("pn", None, path, json!(c), json!(g.ch)),
@@ -418,7 +418,7 @@ impl PnMon {
                 if !contributing {
                     rep.count("pn_noncontributing_feeds", 1);
                     if gotp.is_some() || self.real != before {
-                        rep.violation(
+                        crate::viol!(rep, 
                             "C16:pn:not-transparent",
                             format!(
                                 "non-contributing message {} returned {:?}; state changed: {}",
@@ -440,7 +440,7 @@ impl PnMon {
                 rep.count("pn_resets", 1);
                 let fresh = api("ParameterNumberMessageScanner::new", ParameterNumberMessageScanner::new);
                 if r.is_none() || fresh != Some(self.real) {
-                    rep.violation(
+                    crate::viol!(rep, 
                         "C17:pn:reset-not-equal-new",
                         "after reset() the scanner does not compare equal to a new one".to_string(),
                         history_json("pn", None, path, json!("== new()"), json!(format!("{:?}", self.real))),
